@@ -250,6 +250,12 @@ class Ctx:
             else:
                 sc = scale
                 for k in range(ia.size):
+                    if not math.isfinite(ma[k]) and math.isfinite(ia[k]):
+                        # the Float evaluation of the model overflowed (inf / nan) where the implementation returns a finite number:
+                        # the theorems are about real numbers, the overflowed model value carries no information about the
+                        # quantity the property names (the independent oracles decide such regimes)
+                        self.count("model_nonfinite_skipped")
+                        continue
                     if not close(ia[k], ma[k], sc, rtol, atol):
                         ok = False
                         detail = {"index": k, "impl": float(ia[k]), "model": float(ma[k]),
